@@ -6,6 +6,7 @@ package ristretto
 
 import (
 	"fmt"
+	"os"
 	"sort"
 	"testing"
 	"testing/synctest"
@@ -49,8 +50,11 @@ func vfGenCfg(t *rapid.T, p *vfProfile) vfCfg {
 	if p.roomy || (!p.pressure && rapid.Bool().Draw(t, "roomy")) {
 		c.MaxCost = 1 << 40
 		if p.roomy && rapid.Bool().Draw(t, "snug") {
-			// everything fits, but only just: the sum of the largest cost every key can ever have
-			c.MaxCost = int64(c.Keys)*(vfRoomyMaxCost+itemSize) + int64(rapid.IntRange(0, 3).Draw(t, "snugslack"))
+			// everything fits, but only just: the sum of the largest cost every key can ever have.
+			// Few keys and no internal cost, so that a handful of mis-accounted units already matter.
+			c.Keys = rapid.IntRange(2, 4).Draw(t, "snugkeys")
+			c.IgnoreIntern = true
+			c.MaxCost = int64(c.Keys)*vfRoomyMaxCost + int64(rapid.IntRange(0, 1).Draw(t, "snugslack"))
 		}
 	}
 	c.NumCounters = int64(rapid.SampledFrom([]int{2, 8, 64, 100, 1024}).Draw(t, "numCounters"))
@@ -104,7 +108,11 @@ func (g *vfGen) key(t *rapid.T, s *vfSM) uint64 {
 		}
 	case 2, 3:
 		if !g.p.pressure {
-			return uint64(rapid.IntRange(1, 3).Draw(t, "key"))
+			hi := 3
+			if s.cfg.Keys < hi {
+				hi = s.cfg.Keys
+			}
+			return uint64(rapid.IntRange(1, hi).Draw(t, "key"))
 		}
 	}
 	return uint64(rapid.IntRange(1, s.cfg.Keys).Draw(t, "key"))
@@ -352,6 +360,11 @@ func vfRunCase(c *vfCase, next func(s *vfSM) *vfOp) (out vfOutcome) {
 				// numbers, so this property's assertions stay meaningful: carry on
 				out.resynced++
 				continue
+			}
+			if os.Getenv("VFDBG") != "" {
+				for _, x := range vs {
+					fmt.Println("DBG-DIVERGED", x.Owner, x.Sig)
+				}
 			}
 			out.viol, out.diverged = v, d
 			return
